@@ -151,6 +151,80 @@ class Binding:
         return f'<Binding {self.kind} {self.value!r}>'
 
 
+def local_profile(fn) -> list:
+    """[(local name, signature)] in order of first binding, for the locals of a function (parameters, comprehension variables and
+    names of nested definitions excluded).  The signature is coarse on purpose: the kind of the first binding and the shape of what
+    is bound (`assign:Call:append_row`, `assign:List`, `for:enumerate`, `with`, `aug`), with no local name in it."""
+    if isinstance(fn, ast.Lambda):
+        return []
+    a = fn.args
+    params = {x.arg for x in a.posonlyargs + a.args + a.kwonlyargs}
+    if a.vararg:
+        params.add(a.vararg.arg)
+    if a.kwarg:
+        params.add(a.kwarg.arg)
+    out, seen, banned = [], set(), set()
+
+    def shape(v):
+        if v is None:
+            return 'none'
+        t = type(v).__name__
+        if isinstance(v, ast.Call):
+            f = v.func
+            t += ':' + (f.attr if isinstance(f, ast.Attribute) else (f.id if isinstance(f, ast.Name) else '?'))
+        elif isinstance(v, ast.Constant):
+            t += ':' + repr(v.value)[:12]
+        elif isinstance(v, ast.Attribute):
+            t += ':' + v.attr
+        elif isinstance(v, ast.BinOp):
+            t += ':' + type(v.op).__name__
+        return t
+
+    def bind(target, kind, value):
+        for n in ast.walk(target):
+            if isinstance(n, ast.Name) and isinstance(n.ctx, (ast.Store, ast.Del)) and n.id not in params and n.id not in seen:
+                seen.add(n.id)
+                tup = '' if isinstance(target, ast.Name) else f'[{[x.id for x in ast.walk(target) if isinstance(x, ast.Name)].index(n.id)}]'
+                out.append((n.id, f'{kind}{tup}:{shape(value)}'))
+
+    def walk(stmts):
+        for st in stmts:
+            if isinstance(st, (ast.FunctionDef, ast.AsyncFunctionDef, ast.ClassDef)):
+                seen.add(st.name)
+                continue
+            if isinstance(st, (ast.Global, ast.Nonlocal)):
+                banned.update(st.names)
+            if isinstance(st, ast.Assign):
+                for t in st.targets:
+                    bind(t, 'assign', st.value)
+            elif isinstance(st, ast.AnnAssign):
+                bind(st.target, 'assign', st.value)
+            elif isinstance(st, ast.AugAssign):
+                bind(st.target, 'aug', st.value)
+            elif isinstance(st, (ast.For, ast.AsyncFor)):
+                it = st.iter
+                bind(st.target, 'for', it)
+            elif isinstance(st, (ast.With, ast.AsyncWith)):
+                for it in st.items:
+                    if it.optional_vars is not None:
+                        bind(it.optional_vars, 'with', it.context_expr)
+            for n in ast.walk(st) if not isinstance(st, (ast.For, ast.AsyncFor, ast.While, ast.If, ast.Try, ast.With, ast.AsyncWith)) else []:
+                if isinstance(n, ast.NamedExpr):
+                    bind(n.target, 'walrus', n.value)
+            for field in ('body', 'orelse', 'finalbody'):
+                v = getattr(st, field, None)
+                if isinstance(v, list) and v and isinstance(v[0], ast.stmt):
+                    walk(v)
+            if isinstance(st, ast.Try):
+                for h in st.handlers:
+                    if h.name and h.name not in seen:
+                        seen.add(h.name)
+                        out.append((h.name, 'except'))
+                    walk(h.body)
+    walk(fn.body)
+    return [(n, sg) for n, sg in out if n not in banned]
+
+
 class Program:
     def __init__(self, root: str = '/repo', overlay: Optional[Dict[str, str]] = None, normalize: bool = True):
         self.root = root
@@ -164,6 +238,7 @@ class Program:
         self.renamed_back = {}
         if normalize:
             self._recover_renames()
+            self._recover_locals()
         self.normalizer = None
         if normalize:
             from .normalize import normalize_program
@@ -346,6 +421,69 @@ class Program:
         a = node.args
         sig = ast.dump(a)
         return hashlib.sha1(('|'.join(parts) + '#' + sig).encode('utf-8')).hexdigest()[:16]
+
+    def _recover_locals(self):
+        """Local variables of a function the rules know (known_locals.txt) that were renamed get their old names back in the syntax
+        tree: a pinned local that is gone is matched with a new local of the same function by the order and the coarse signature
+        of the first binding (local_profile).  A rename of a local is not a verdict; anything ambiguous is left alone."""
+        import os as _os
+        path = _os.path.join(_os.path.dirname(_os.path.abspath(__file__)), 'known_locals.txt')
+        if not _os.path.exists(path):
+            return
+        known = {}
+        with open(path, encoding='utf-8') as f:
+            for line in f:
+                if line.strip() and not line.startswith('#'):
+                    q, _, rest = line.rstrip('\n').partition('\t')
+                    known[q] = [tuple(x.split('\x1f', 1)) for x in rest.split('\x1e') if x]
+        n_fun = n_names = 0
+        for q, prof in known.items():
+            fi = self.functions.get(q)
+            if fi is None or fi.module.generated or fi.module.legacy or isinstance(fi.node, ast.Lambda):
+                continue
+            cur = local_profile(fi.node)
+            pn, cn = [n for n, _ in prof], [n for n, _ in cur]
+            missing = [(n, sg) for n, sg in prof if n not in cn]
+            new = [(n, sg) for n, sg in cur if n not in pn]
+            if not missing or not new:
+                continue
+            used = {n.id for n in ast.walk(fi.node) if isinstance(n, ast.Name)} | {a.arg for n in ast.walk(fi.node) if isinstance(n, ast.arguments)
+                                                                                      for a in n.args + n.kwonlyargs + n.posonlyargs}
+            ren = {}
+            if len(missing) == len(new):
+                for (po, ps), (cn_, cs) in zip(missing, new):       # same order of first binding
+                    if ps == cs:
+                        ren[cn_] = po
+            left_m = [(n, sg) for n, sg in missing if n not in ren.values()]
+            left_n = [(n, sg) for n, sg in new if n not in ren]
+            for po, ps in left_m:                                   # unique signature match among what is left
+                c1 = [n for n, sg in left_n if sg == ps and n not in ren]
+                c2 = [n for n, sg in left_m if sg == ps]
+                if len(c1) == 1 and len(c2) == 1:
+                    ren[c1[0]] = po
+            ren = {c: p_ for c, p_ in ren.items() if p_ not in used}
+            if not ren:
+                continue
+
+            def rename(node, ren_):
+                for ch in ast.iter_child_nodes(node):
+                    if isinstance(ch, (ast.FunctionDef, ast.AsyncFunctionDef, ast.Lambda)):
+                        a_ = ch.args
+                        shadow = {x.arg for x in a_.posonlyargs + a_.args + a_.kwonlyargs} | ({a_.vararg.arg} if a_.vararg else set()) \
+                            | ({a_.kwarg.arg} if a_.kwarg else set())
+                        sub = {k: v for k, v in ren_.items() if k not in shadow}
+                        if sub:
+                            rename(ch, sub)
+                        continue
+                    if isinstance(ch, ast.Name) and ch.id in ren_:
+                        ch.id = ren_[ch.id]
+                    if isinstance(ch, ast.ExceptHandler) and ch.name in ren_:
+                        ch.name = ren_[ch.name]
+                    rename(ch, ren_)
+            rename(fi.node, ren)
+            n_fun += 1
+            n_names += len(ren)
+        self.locals_renamed_back = (n_fun, n_names)
 
     def _recover_renames(self):
         """A function the rules know by name (known_digests.txt) that is gone, while the same module / class has ONE new function
